@@ -27,6 +27,16 @@ class TableGroup(DBMLObject):
         self.note = note
         self.color = color
 
+    @property
+    def note(self):
+        return self._note
+
+    @note.setter
+    def note(self, val: Optional[Note]) -> None:
+        self._note = val
+        if isinstance(val, Note):
+            val.parent = self
+
     def __repr__(self):
         """
         >>> tg = TableGroup('mygroup', ['t1', 't2'])
